@@ -491,6 +491,7 @@ func main() {
 	}
 	// non-empty partners (valid lattice geometries, with and without inserted empties)
 	origins := originPartners()
+	noncanon := nonCanonical()
 	nb := a.N
 	type mixed struct {
 		base, ins *lib.Node
@@ -606,6 +607,14 @@ func main() {
 				oneEmpty = append(oneEmpty, origins[(i+j*5)%len(origins)])
 			}
 		}
+		// non-canonical partners (self-union differs structurally from the operand): a rotating 3, all in thorough
+		if thorough {
+			oneEmpty = append(oneEmpty, noncanon...)
+		} else {
+			for j := 0; j < 3; j++ {
+				oneEmpty = append(oneEmpty, noncanon[(i+j*3)%len(noncanon)])
+			}
+		}
 		for _, ne := range oneEmpty {
 			gn := ne.Build()
 			dn := idump(ne)
@@ -617,9 +626,9 @@ func main() {
 					continue
 				}
 				o := run(func() []reflect.Value { return f.call(ga, gn) })
-				em.call("N", "func", f.name, f.op, "WLeft", "x", "(E,G)", da, dn, o.text, uu.text, geomVerdict(o, uu))
+				em.call("N", "func", f.name, f.op, "WLeft", "x", "(E,G)", da, dn, o.text, uu.text, structVerdict(o, uu))
 				o = run(func() []reflect.Value { return f.call(gn, ga) })
-				em.call("N", "func", f.name, f.op, "WRight", "x", "(G,E)", dn, da, o.text, uu.text, geomVerdict(o, uu))
+				em.call("N", "func", f.name, f.op, "WRight", "x", "(G,E)", dn, da, o.text, uu.text, structVerdict(o, uu))
 			}
 		}
 	}
